@@ -1,8 +1,8 @@
 (* C07/Witness.v — concrete instances: refutation witnesses (findings F4, F3) and
    non-vacuity examples for the hypotheses of the theorems in Props.v *)
-From Coq Require Import List NArith ZArith Bool.
+From Coq Require Import List NArith ZArith Bool Lia.
 Import ListNotations.
-Require Import Base.Wire Base.PyStr C05.Model C07.Model C07.Lemmas C07.Ping.
+Require Import Base.Wire Base.PyStr C05.Model C07.Model C07.Lemmas C07.Ping C07.Echo C07.Full.
 Open Scope N_scope.
 
 Definition h0 : N -> msg -> unit -> hres unit := fun _ _ s => HR s false None.
@@ -18,15 +18,17 @@ Proof. intros n m s. discriminate. Qed.
 Lemma nil_ok : out_ok unit [].
 Proof. constructor. Qed.
 
-Lemma malformed_refutes vt :
+(* the old witnesses of C07.F4 / C07.F3: the rejected line is skipped, the driver stays, the PING after it is answered *)
+Lemma malformed_skipped vt :
   let ms := run_reads unit vt dec0 h0 h0 [] w_malformed (init tt) in
-  dom vt dec0 w_malformed [] = false /\ alive ms = false /\
-  escapes ms = [Some (XE MalformedIrcMsg)] /\ sent (fst (m_p ms)) = [].
+  dom vt dec0 w_malformed [] = true /\ alive ms = true /\
+  escapes ms = [None; None] /\ sent (fst (m_p ms)) = [[120]].
 Proof. cbv zeta. repeat split; vm_compute; reflexivity. Qed.
 
-Lemma time_refutes vt :
-  let ms := run_reads unit vt dec0 h0 h0 [] w_time (init tt) in
-  dom vt dec0 w_time [] = false /\ alive ms = false /\ escapes ms = [Some (XE TypeError)].
+Definition w_time_ping : list recv := w_time ++ [RData [80; 73; 78; 71; 32; 58; 120; 10]].
+Lemma time_skipped vt :
+  let ms := run_reads unit vt dec0 h0 h0 [] w_time_ping (init tt) in
+  dom vt dec0 w_time_ping [] = true /\ alive ms = true /\ escapes ms = [None; None] /\ sent (fst (m_p ms)) = [[120]].
 Proof. cbv zeta. repeat split; vm_compute; reflexivity. Qed.
 
 (* ---- non-vacuity: handlers that always raise, callbacks that raise BaseException ---- *)
@@ -73,13 +75,15 @@ Lemma ex_partial :
 Proof. vm_compute. reflexivity. Qed.
 
 (* the send side: with a decode_raw_line that maps undecodable bytes to lone surrogates ('surrogateescape'),
-   the parse-clean line "PING :caf\xe9" makes outbuffer.encode() raise in _sendIfMsgs: outside every firewall *)
+   the parse-clean line "PING :caf\xe9" queues a PONG that cannot be encoded: Irc._truncateMsg raises inside the
+   firewalled takeMsg, the message is logged and dropped, the loop goes on and the next PING is answered *)
 Definition dec_se (b : bytes) : str := map (fun c => if N.ltb c 128 then c else c + 56320) b.
 Definition w_surrogate : list recv := [RData [80; 73; 78; 71; 32; 58; 99; 97; 102; 233; 10]].
-Lemma surrogate_escapes vt :
-  let ms := run_reads unit vt dec_se h0 h0 [] w_surrogate (init tt) in
-  parse_excs vt dec_se w_surrogate [] = [] /\ dom vt dec_se w_surrogate [] = false /\
-  alive ms = false /\ escapes ms = [Some (XE UnicodeError)] /\ sent (fst (m_p ms)) = [].
+Definition w_surrogate_ping : list recv := w_surrogate ++ [RData [80; 73; 78; 71; 32; 58; 120; 10]].
+Lemma surrogate_dropped vt :
+  let ms := run_reads unit vt dec_se h0 h0 [] w_surrogate_ping (init tt) in
+  dom vt dec_se w_surrogate_ping [] = false /\ alive ms = true /\ crashed ms = false /\
+  escapes ms = [None; None] /\ sent (fst (m_p ms)) = [[120]] /\ outq (fst (m_p ms)) = [].
 Proof. cbv zeta. repeat split; vm_compute; reflexivity. Qed.
 (* the same bytes through a 'replace' decoder (U+FFFD) are inside the domain and answered *)
 Definition dec_rep (b : bytes) : str := map (fun c => if N.ltb c 128 then c else 65533) b.
@@ -87,3 +91,18 @@ Lemma replace_survives vt :
   let ms := run_reads unit vt dec_rep h0 h0 [] w_surrogate (init tt) in
   dom vt dec_rep w_surrogate [] = true /\ alive ms = true /\ sent (fst (m_p ms)) = [[99; 97; 102; 65533]].
 Proof. cbv zeta. repeat split; vm_compute; reflexivity. Qed.
+
+Lemma dec_rep_clean : decode_clean dec_rep.
+Proof.
+  intro b. unfold dec_rep, encodable. induction b as [|c b IH]; [reflexivity|].
+  cbn [map forallb]. rewrite IH, andb_true_r. destruct (N.ltb c 128) eqn:E; [|reflexivity].
+  unfold enc_char. apply N.ltb_lt in E. apply orb_true_iff. left. apply N.ltb_lt. lia.
+Qed.
+Lemma ex_domain_rep :
+  recv_ok ex_rvs = true /\
+  sent (fst (m_p (run_reads unit (fun _ => true) dec_rep h_raise h_raise [cb_bad] ex_rvs (init tt)))) = [[97]].
+Proof. split; vm_compute; reflexivity. Qed.
+Lemma ex_ping_hyp_rep :
+  exists m, parse_msg (fun _ => true) (dec_rep ex_ping) = Ok (Some m) /\ is_ping (m_command m) = true /\
+            m_args m = [[98]] /\ valid_arg [98] = true.
+Proof. eexists. repeat split; vm_compute; reflexivity. Qed.
